@@ -44,6 +44,7 @@ type Spec struct {
 	Path       string // escaped path as written
 	RawQuery   string
 	HasQuery   bool
+	BadQuery   bool   // the query contains a pair with a malformed percent-escape
 	Proto      string // "HTTP/1.1" | "HTTP/1.0"
 	Status     int
 	Reason     string
